@@ -121,7 +121,10 @@ fn main() {
     }
 
     common::start_watchdog(&ctx);
-    let (level, out) = match prop.as_str() {
+    // a panic of the machinery itself (not inside an explored execution, those are caught by the engines)
+    // must never look like a verdict, nor die silently
+    let run_all = || -> (&'static str, Outcome) {
+        match prop.as_str() {
         "C01" => ("fault_enumeration", props::c01::run(&ctx)),
         "C02" => ("fault_enumeration", props::c02::run(&ctx)),
         "C03" => ("fault_enumeration", props::c03::run(&ctx)),
@@ -141,7 +144,15 @@ fn main() {
         "C17" => ("model_checking", props::c17::run(&ctx)),
         "C18" => ("model_checking", props::c18::run(&ctx)),
         "C19" => ("model_checking", props::c19::run(&ctx)),
-        _ => usage(),
+            _ => usage(),
+        }
+    };
+    let (level, out) = match std::panic::catch_unwind(std::panic::AssertUnwindSafe(run_all)) {
+        Ok(x) => x,
+        Err(p) => {
+            let msg = p.downcast_ref::<String>().cloned().or_else(|| p.downcast_ref::<&str>().map(|s| s.to_string())).unwrap_or_else(|| "panic".into());
+            machinery_error(&format!("the checker itself panicked: {msg} (run with VERIF_PANIC_TRACE=1 RUST_BACKTRACE=1 for the location)"));
+        }
     };
     std::process::exit(finish(&ctx, level, out));
 }
